@@ -345,7 +345,36 @@ pub fn run(tier: &str) -> Result<Report, String> {
             }
         }
     }
-    let arg_specs: Vec<NetSpec> = arg_specs.into_iter().filter(|s| s.well_formed()).collect();
+    // expression-argument sub-family: a symbol applied to zero-arity parameters, constants, compound terms
+    // and to itself, next to a second application of the same symbol
+    {
+        let vars: Vec<String> = vec!["a".into(), "b".into()];
+        let regs: Vec<Reg> = vec![Reg { src: 0, dst: 0, sign: Sign::Unk, observable: false }, Reg { src: 1, dst: 0, sign: Sign::Unk, observable: false }, Reg { src: 1, dst: 1, sign: Sign::Unk, observable: false }];
+        let p = || Expr::Call("p".into(), vec![]);
+        let q = || Expr::Call("q".into(), vec![]);
+        let (a, b) = (|| Expr::Var(0), || Expr::Var(1));
+        let ce = |n: &str, args: Vec<Expr>| Expr::CallE(n.to_string(), args);
+        let one: Vec<Expr> = vec![p(), Expr::not(p()), Expr::Const(true), Expr::Const(false), Expr::bin('&', a(), b()), Expr::bin('|', p(), b()), ce("f", vec![b()]), Expr::bin('^', a(), p())];
+        let mut fs: Vec<Expr> = vec![];
+        for x in &one {
+            fs.push(ce("f", vec![x.clone()]));
+            for y in [b(), a(), p(), Expr::not(b())] {
+                fs.push(Expr::bin('^', ce("f", vec![x.clone()]), ce("f", vec![y.clone()])));
+                fs.push(Expr::bin('&', ce("f", vec![x.clone()]), Expr::not(ce("f", vec![y])))); 
+            }
+        }
+        for (x, y) in [(p(), b()), (Expr::not(p()), b()), (p(), q()), (b(), p()), (Expr::Const(true), b()), (a(), Expr::bin('&', a(), b()))] {
+            fs.push(ce("g", vec![x.clone(), y.clone()]));
+            fs.push(Expr::bin('=', ce("g", vec![x.clone(), y.clone()]), ce("g", vec![Expr::not(x.clone()), y.clone()])));
+            fs.push(Expr::bin('|', ce("g", vec![x.clone(), y.clone()]), ce("g", vec![y, x])));
+        }
+        for f in fs {
+            // both variables must be mentioned (declared regulators)
+            let f = Expr::bin('|', f, Expr::bin('&', a(), Expr::bin('&', b(), Expr::Const(false))));
+            arg_specs.push(NetSpec { vars: vars.clone(), regs: regs.clone(), funcs: vec![Some(f), Some(Expr::Var(1))] });
+        }
+    }
+    let arg_specs: Vec<NetSpec> = arg_specs.into_iter().filter(|s| s.well_formed() && s.param_bits() <= 14).collect();
     rep.set("argument_list_networks", json!(arg_specs.len()));
     specs.extend(arg_specs);
     rep.set("networks_enumerated", json!(specs.len()));
@@ -380,7 +409,7 @@ pub fn run(tier: &str) -> Result<Report, String> {
     rep.set("networks_accepted_by_the_library", json!(accepted));
     rep.sample(json!({"aeon": specs[specs.len() / 2].to_aeon()}));
     rep.sample(json!({"aeon": "a -?? b\nb -?? b\n$b: f(a) | h\n", "oracle": "as the fresh inputs range over all values, b's output function must range over exactly the 2 * 4 instantiations of f(a) | h"}));
-    rep.rule = "every network with 1..3 variables a,b,c whose variables each take one item of a menu (no regulator/no function; constants; zero-arity h; implicit function over 1, 2 (3) regulators; !x, x, x^y, x|!y; f(x); f(x)|h; g(x)&!f(x); k(x,y); k(y,x); f(x)&g(y); f(x)|f(y); k(x,y)&!k(y,x); f(!x); f(x)&f(!x); k(!x,y)|k(x,y); f(x)^(f(x)&h); f(y)=>(x&h); ...; unconstrained and, for n<=2, constrained regulations; symbols shared between variables) that is well formed and accepted by the library, plus a name-clash sub-family (a variable named like a generated input) and an argument-list sub-family (a symbol of arity 2 / 3 applied to every argument list over the variables, repetitions included, alone and in every ordered pair m(args1) & !m(args2)) and a literal sub-family (true / false as left / right operand of every binary operator next to a variable, a negated variable and terms with an uninterpreted function). The convert-aeon-to-bnet binary built from the working tree is run on the aeon text; its output is re-loaded as bnet; for every target the set of truth tables over the original variables under all valuations of the fresh inputs must equal the set of truth tables of all instantiations of the input function (constraints dropped); targets = variables with a regulator or function; fresh inputs are no targets. distinct_nontrivial = networks accepted by the library".into();
+    rep.rule = "every network with 1..3 variables a,b,c whose variables each take one item of a menu (no regulator/no function; constants; zero-arity h; implicit function over 1, 2 (3) regulators; !x, x, x^y, x|!y; f(x); f(x)|h; g(x)&!f(x); k(x,y); k(y,x); f(x)&g(y); f(x)|f(y); k(x,y)&!k(y,x); f(!x); f(x)&f(!x); k(!x,y)|k(x,y); f(x)^(f(x)&h); f(y)=>(x&h); ...; unconstrained and, for n<=2, constrained regulations; symbols shared between variables) that is well formed and accepted by the library, plus a name-clash sub-family (a variable named like a generated input) and an argument-list sub-family (a symbol of arity 2 / 3 applied to every argument list over the variables, repetitions included, alone and in every ordered pair m(args1) & !m(args2)) an expression-argument sub-family (a symbol applied to zero-arity parameters, constants, compound terms and to itself, alone and next to a second application) and a literal sub-family (true / false as left / right operand of every binary operator next to a variable, a negated variable and terms with an uninterpreted function). The convert-aeon-to-bnet binary built from the working tree is run on the aeon text; its output is re-loaded as bnet; for every target the set of truth tables over the original variables under all valuations of the fresh inputs must equal the set of truth tables of all instantiations of the input function (constraints dropped); targets = variables with a regulator or function; fresh inputs are no targets. distinct_nontrivial = networks accepted by the library".into();
     rep.assumptions.push("biodivine-lib-param-bn's bnet parser is trusted for reading the converter's output; truth tables are evaluated by the harness's own evaluator".into());
     Ok(rep)
 }
